@@ -105,7 +105,16 @@ func replayMain(args []string) {
 	if len(args) > 1 {
 		off = offSet(args[1])
 	}
-	dir, _ := os.MkdirTemp("", "c12-replay-")
+	verif := os.Getenv("VERIF_DIR")
+	if verif == "" {
+		verif = "/verif"
+	}
+	_ = os.MkdirAll(filepath.Join(verif, ".work"), 0o755)
+	dir, err := os.MkdirTemp(filepath.Join(verif, ".work"), "c12-replay-")
+	if err != nil {
+		fmt.Fprintln(os.Stderr, err)
+		os.Exit(3)
+	}
 	defer os.RemoveAll(dir)
 	for _, line := range strings.Split(string(b), "\n") {
 		line = strings.TrimSpace(line)
@@ -248,7 +257,7 @@ func runChunks(e *lib.Env, label string, cases []Case, off []string, tot *totals
 			if begun != "" {
 				// the worker died inside this case
 				c := byID[begun]
-				site := lib.PanicSite(r.Stderr)
+				site := strings.TrimPrefix(lib.PanicSite(r.Stderr), strings.TrimSuffix(e.Repo, "/")+"/")
 				_, why := lib.GoCrash(r)
 				e.Violation("crash@"+site, fmt.Sprintf("the worker process died (exit %d %s) while executing case: %s | %s", r.Exit, r.Signal, c.String(), why),
 					"txt", []byte("# C12 history; re-execute with: .build/c12 replay <this file>\n# crash@"+site+"\n"+c.String()+"\n"))
@@ -322,7 +331,7 @@ func main() {
 
 	lap("exhaustive")
 	// 3. seeded histories of length 40: 1 base + 4 temps, 8 names
-	nSeeded := e.Pick(300, 20000)
+	nSeeded := e.Pick(300, 6000)
 	r := e.Rand("seeded")
 	seeded := make([]Case, 0, nSeeded)
 	for i := 0; i < nSeeded; i++ {
